@@ -342,6 +342,7 @@ def registration(spec, order):
 
     bank = {c['name']: {} for c in spec['classes']}
     rejected = set()
+    refused = {}  # refused class -> banks holding nothing of it
     imports = {}
     load('base')
     done = 0
@@ -351,9 +352,13 @@ def registration(spec, order):
         for name, _ in sequence[done:]:
             cls = classes[name]
             refs = ['q:' + name] + (['a:' + cls['alias']] if cls['alias'] else [])
-            for holder in chain(spec, name):
+            holders = chain(spec, name)
+            for position, holder in enumerate(holders):
                 if any(r in bank[holder] and bank[holder][r] != name for r in refs):
                     rejected.add(name)
+                    # the refusing bank checks every reference before registering any: it (and the banks above it, never
+                    # reached) hold nothing of the refused class - the banks below it already registered it
+                    refused[name] = set(holders[position:])
                     imports[unit] = 'unexpected'
                     break
                 if not cls['abstract']:
@@ -361,6 +366,7 @@ def registration(spec, order):
                         bank[holder][ref] = name
         done = len(sequence)
     # base classes registered before any unit
+    bank['#refused'] = refused
     return bank, rejected, imports
 
 
@@ -413,6 +419,10 @@ def allowed(spec, mode, order):
         under = claimants(spec, key, holder)
         if mode == 'eager' and not clash:
             return {'C:' + under[0]} if under else {'missing'}
+        if mode == 'eager' and key.startswith('q:') and holder in bank['#refused'].get(key[2:], ()):
+            # the qualified name of a class refused by this bank (or never offered to it): never that class - the lookup
+            # re-imports its module, which raises the collision again, or reports it missing
+            return {'missing', 'unexpected'}
         if mode == 'eager':
             registered = bank[holder].get(key)
             if registered and holder in roots and key in clash:
